@@ -25,7 +25,7 @@ def describe(tier):
 
 
 def blocks(tier):
-    bl = K.pair_blocks(tier) + K.many_blocks(tier) + K.run_blocks(tier) + K.block_blocks(tier)
+    bl = K.pair_blocks(tier) + K.many_blocks(tier) + K.run_blocks(tier) + K.block_blocks(tier) + [("manylong", {})]
     return [(f, dict(p, tier=tier)) for f, p in bl]
 
 
@@ -144,6 +144,11 @@ def run_block(family, p, acc):
                 check_kernels_only(A, B, acc, "runs")
                 check_kernels_only(B, A, acc, "runs")
                 acc.case(("runs", tuple(A), tuple(B)), nontrivial=K.overlapping(A, B), outcome=("runs", len(set(A) & set(B))), sample=lambda: {"universe": "runs", "A": A, "B": B})
+        return
+    if family == "manylong":
+        for lst in K.many_long_lists(tier):
+            check_many(lst, acc, "manylong")
+            acc.case(("manylong", tuple(map(tuple, lst))), nontrivial=True, outcome=("manylong", len(lst)), sample=lambda: {"fam": "manylong", "arrays": lst})
         return
     if family == "blocked":
         descs = K.block_descs(tier)
